@@ -94,4 +94,14 @@ PROPS = {
         "level_note": "Trusts: Lean kernel; Spec/Chen.lean; rustc; extractor (get_chen_points graph, recorded doubled and checked to be exact multiples of 0.5); f32 arithmetic on multiples of 0.5 of small magnitude is exact and ceil(p/2) = floor((p+1)/2) (assumption, checked by comparing integer results on all 53 x 53 slot pairs).",
         "assumptions": ["IEEE f32 is exact on the multiples of 0.5 in [-5, 22] the formula can produce"],
     },
+    "C15": {
+        "technique": "Lean 4 proof: testBit-level set semantics (core bit lemmas), OR-fold lemma, find?-based peel over a deck of distinct powers of two proved generally, tied to the regenerated bit deck and from_ckc graph by kernel evaluation",
+        "level_text": "Machine-checked Lean 4 theorems for EVERY list of words / every natural number x: a set built from a hand (or from text) has bit 51-i iff the word of deck card i occurs among the slots (tokens), and no other bit; fold_in is union; has is the subset test; the count is the number of set bits; is_valid iff non-zero with no bit above 51 (every x < 2^64); peel returns the first deck bit contained in x and removes exactly it, or blank leaving x unchanged; k successive peels return the members in deck order followed by blanks (induction over k, for any deck of distinct powers of two; the crate's deck is shown to be 2^51..2^0).",
+        "level_note": "Trusts: Lean kernel; rustc; extractor (from_ckc graph over all 2^32 words, bit deck, constants); the one-line set operations and the peel loop are hand-modelled and compared with the crate on hands of every size, structured + seeded 64-bit sets and full peel sequences step by step. The 2^64 domain is sampled.",
+    },
+    "C16": {
+        "technique": "Lean 4 proof: popcount-2 characterisation (x = 2^i ||| 2^j) proved generally + kernel evaluation over all 2,016 two-bit values",
+        "level_text": "Machine-checked Lean 4 theorems for EVERY x < 2^64: fewer than two bits gives not-enough-cards, more than two too-many-cards; exactly two bits means x = 2^i ||| 2^j with j < i < 64 (general lemma) and then the result is Ok [deck[51-i], deck[51-j]] with from_two of it equal to x when i < 52, and invalid-binary-format otherwise (kernel pass over the 2,016 pairs through the model of peel, from_binary_card and is_valid); success iff the set is two real card bits.",
+        "level_note": "Trusts: Lean kernel; rustc; extractor; the model of try_from (count, two peels, from_binary_card, is_valid) compared with the crate on all 64 x 64 one- and two-bit values and seeded values of every population count. from_binary_card's default arm is sampled on 2^64 (C14).",
+    },
 }
